@@ -86,35 +86,34 @@ Section SinkFlow.
     inv (snd (step (Some f) op s)) (rep || rep_of op (fst (step (Some f) op s))).
   Proof.
     intros [I1 I2]. unfold rep_of.
-    destruct op as [n| | |n|]; cbn [step is_raw andb].
-    - pose proof (bufio_write_spec n s) as Sp. unfold buf_spec in Sp.
-      destruct (bufio_write (Some f) n s) as [r s']; cbn [fst snd] in *.
-      rewrite orb_false_r.
+    assert (FLUSH : forall r s', bufio_flush (Some f) s = (r, s') ->
+                    (berr s' = None \/ berr s' = Some e) /\
+                    (sfired s' = true -> (rep || false) = true \/ berr s' = Some e)).
+    { intros r s' E. pose proof (bufio_flush_spec s) as Sp. unfold buf_spec in Sp.
+      rewrite E in Sp. cbn [fst snd] in Sp. rewrite orb_false_r.
       destruct (berr s) as [x|] eqn:Hb.
-      + destruct Sp as [_ ->]. split; rewrite ?Hb; auto.
-      + destruct Sp as [(_ & H2 & H3)|(_ & H2 & H3)]; split; rewrite ?H2, ?H3; auto.
-    - pose proof (bufio_flush_spec s) as Sp. unfold buf_spec in Sp.
-      destruct (bufio_flush (Some f) s) as [r s']; cbn [fst snd] in *.
-      rewrite orb_false_r.
-      destruct (berr s) as [x|] eqn:Hb.
-      + destruct Sp as [_ ->]. split; rewrite ?Hb; auto.
-      + destruct Sp as [(_ & H2 & H3)|(_ & H2 & H3)]; split; rewrite ?H2, ?H3; auto.
-    - pose proof (sink_call_spec CSeek s) as Sp. unfold raw_spec in Sp.
-      destruct (sink_call (Some f) CSeek s) as [r s']; cbn [fst snd] in *.
-      destruct Sp as (B & _ & [[H1 H2]|[H1 H2]]); subst r; unfold inv; rewrite B.
-      + rewrite orb_false_r. split; [exact I1|]. rewrite H2. exact I2.
-      + unfold e. rewrite N.eqb_refl, orb_true_r. split; auto.
-    - pose proof (sink_call_spec (CWrite n) s) as Sp. unfold raw_spec in Sp.
-      destruct (sink_call (Some f) (CWrite n) s) as [r s']; cbn [fst snd] in *.
-      destruct Sp as (B & _ & [[H1 H2]|[H1 H2]]); subst r; unfold inv; rewrite B.
-      + rewrite orb_false_r. split; [exact I1|]. rewrite H2. exact I2.
-      + unfold e. rewrite N.eqb_refl, orb_true_r. split; auto.
-    - pose proof (bufio_flush_spec s) as Sp. unfold buf_spec in Sp.
-      destruct (bufio_flush (Some f) s) as [r s']; cbn [fst snd] in *.
-      rewrite orb_false_r.
-      destruct (berr s) as [x|] eqn:Hb.
-      + destruct Sp as [_ ->]. split; rewrite ?Hb; auto.
-      + destruct Sp as [(_ & H2 & H3)|(_ & H2 & H3)]; split; rewrite ?H2, ?H3; auto.
+      - destruct Sp as [_ ->]. split; rewrite ?Hb; auto.
+      - destruct Sp as [(_ & H2 & H3)|(_ & H2 & H3)]; split; rewrite ?H2, ?H3; auto. }
+    assert (RAW : forall c r s', sink_call (Some f) c s = (r, s') ->
+                  (berr s' = None \/ berr s' = Some e) /\
+                  (sfired s' = true ->
+                   (rep || (true && match r with Some x => N.eqb x e | None => false end)) = true \/ berr s' = Some e)).
+    { intros c r s' E. pose proof (sink_call_spec c s) as Sp. unfold raw_spec in Sp.
+      rewrite E in Sp. cbn [fst snd] in Sp.
+      destruct Sp as (B & _ & [[H1 H2]|[H1 H2]]); subst r; rewrite B.
+      - cbn [andb]. rewrite orb_false_r. split; [exact I1|]. rewrite H2. exact I2.
+      - unfold e. cbn [andb]. rewrite N.eqb_refl, orb_true_r. split; auto. }
+    destruct op as [n| | |n| | |n|n]; cbn [step is_raw andb];
+      try exact (FLUSH _ _ (surjective_pairing (bufio_flush (Some f) s)));
+      try (match goal with |- context [sink_call (Some f) ?c s] =>
+             exact (RAW c _ _ (surjective_pairing (sink_call (Some f) c s))) end).
+    2,3: (unfold sink_read; cbn; rewrite orb_false_r; split; assumption).
+    pose proof (bufio_write_spec n s) as Sp. unfold buf_spec in Sp.
+    destruct (bufio_write (Some f) n s) as [r s']; cbn [fst snd] in *.
+    rewrite orb_false_r.
+    destruct (berr s) as [x|] eqn:Hb.
+    + destruct Sp as [_ ->]. split; rewrite ?Hb; auto.
+    + destruct Sp as [(_ & H2 & H3)|(_ & H2 & H3)]; split; rewrite ?H2, ?H3; auto.
   Qed.
 
   Lemma run_inv : forall ops s rep,
@@ -144,7 +143,7 @@ Section SinkFlow.
     destruct (run_ops (Some f) ops w0) as [rs s]. cbn [fst snd orb] in I.
     destruct I as [I1 I2].
     assert (Sp : buf_spec s (fst (step (Some f) op s)) (snd (step (Some f) op s))).
-    { destruct op; try discriminate; cbn [step]; [apply bufio_write_spec|apply bufio_flush_spec]. }
+    { destruct op; try discriminate; cbn [step]; [apply bufio_write_spec|apply bufio_flush_spec|apply bufio_flush_spec]. }
     destruct (step (Some f) op s) as [r s']. cbn [fst snd] in Sp. unfold buf_spec in Sp.
     intro Hf. fold e.
     destruct (berr s) as [x|] eqn:Hb.
@@ -202,7 +201,8 @@ Proof.
     pose proof (bsw_nofire f (buffered s) s) as H.
     destruct (bufio_sink_write (Some f) (buffered s) s) as [[x|] s'] eqn:E; cbn [snd] in *; intro Hf;
       destruct (H Hf) as [H1 H2]; rewrite <- H1; auto. }
-  destruct op as [n| | |n|]; cbn [step]; try exact FL; try apply sink_call_nofire.
+  destruct op as [n| | |n| | |n|n]; cbn [step]; try exact FL; try apply sink_call_nofire;
+    try (unfold sink_read; cbn; auto).
   unfold bufio_write. destruct (berr s); [auto|].
   destruct (n <=? bufio_size - buffered s)%N; [auto|].
   destruct (buffered s =? 0)%N; [apply bsw_nofire|].
@@ -228,7 +228,8 @@ Proof.
   { unfold bufio_flush. destruct (berr s); [exact H|]. destruct (buffered s =? 0)%N; [exact H|].
     pose proof (bsw_fired_mono f (buffered s) s H) as M.
     destruct (bufio_sink_write f (buffered s) s) as [[x|] s']; exact M. }
-  destruct op as [n| | |n|]; cbn [step]; try exact FL; try (apply sink_call_fired_mono; exact H).
+  destruct op as [n| | |n| | |n|n]; cbn [step]; try exact FL; try (apply sink_call_fired_mono; exact H);
+    try exact H.
   unfold bufio_write. destruct (berr s); [exact H|].
   destruct (n <=? bufio_size - buffered s)%N; [exact H|].
   destruct (buffered s =? 0)%N; [apply bsw_fired_mono; exact H|].
@@ -322,6 +323,16 @@ Qed.
 (* the hypotheses are satisfiable: a program with a placeholder, 11 sink calls *)
 Definition sink_example : list sop :=
   [BWrite 15; BWrite 7000; BWrite 12; BWrite 9000; FlushIgnored; RawSeek; RawSeek; RawWrite 4; RawSeek; BWrite 300; BWrite 5000; FinalFlush].
+
+(* the same with a read-back (Writer.Get) in the middle *)
+Definition sink_example_readback : list sop :=
+  [BWrite 15; BWrite 7000; BWrite 12] ++ read_back [1024; 1024; 300; 0]%N ++ [BWrite 9000; BWrite 300; FinalFlush].
+
+Lemma sink_example_readback_ok :
+  length (sink_calls sink_example_readback) = 11%nat /\
+  forallb (fun b => b) (surface_verdicts sink_example_readback OnlyK) = true /\
+  forallb (fun b => b) (surface_verdicts sink_example_readback FromK) = true.
+Proof. vm_compute. auto. Qed.
 
 Lemma sink_example_ok :
   length (sink_calls sink_example) = 9%nat /\
